@@ -14,6 +14,11 @@ pub struct SessionCase {
     pub max_lines_after_fault: usize,
     /// join_next[i]: form i and form i+1 are entered as one submission (when neither fails)
     pub join_next: Vec<bool>,
+    /// forms i entered in one submission with form i+1 although form i+1 fails (form i is a definition: prints nothing)
+    pub force_join: Vec<usize>,
+    /// forms whose printed value is known by construction (uses of a macro defined by an earlier submission): the
+    /// in-process reference evaluates every form through a separate call too, so it cannot vouch for these
+    pub known_values: Vec<(usize, String)>,
 }
 
 fn special_forms(ch: &mut Chooser) -> Form {
@@ -133,6 +138,24 @@ pub fn gen_session(ch: &mut Chooser) -> SessionCase {
         fault_pos = Some(forms.len() + pos);
     }
     forms.extend(body);
+    // a macro defined in one submission and used in later ones
+    let mut force_join = vec![];
+    let mut known_values: Vec<(usize, String)> = vec![];
+    if ch.chance(1, 2) {
+        forms.push(Form::Raw("(define-syntax my-inc (syntax-rules () ((my-inc e) (+ e 1))))".into()));
+        forms.push(Form::Expr(Expr::Int(7)));
+        known_values.push((forms.len(), "42".to_string()));
+        forms.push(Form::Raw("(my-inc 41)".into()));
+        known_values.push((forms.len(), "(2 3)".to_string()));
+        forms.push(Form::Raw("(list (my-inc 1) (my-inc (my-inc 1)))".into()));
+    }
+    // a definition and, in the same submission, a form that is not lexically well formed: the definition has been made
+    if ch.chance(1, 2) {
+        force_join.push(forms.len());
+        forms.push(Form::Define(Def { name: "lx".into(), value: app("next!", vec![]), sugar: false }));
+        forms.push(Form::Raw(ch.pick_s(&["12345678901", "#z", "(display 1/0)", "(list 1 2.3.4)"]).to_string()));
+        forms.push(Form::Expr(app("list", vec![var("lx"), var("nx")])));
+    }
     // a value followed by an effectful definition, usually entered as one submission (which then prints nothing)
     let pair_at = forms.len();
     forms.push(Form::Expr(Expr::Int(41)));
@@ -156,7 +179,7 @@ pub fn gen_session(ch: &mut Chooser) -> SessionCase {
     if join_next[pair_at] && pair_at > 0 {
         join_next[pair_at - 1] = false;
     }
-    SessionCase { forms, splittings, has_fault, max_lines_after_fault, join_next }
+    SessionCase { forms, splittings, has_fault, max_lines_after_fault, join_next, force_join, known_values }
 }
 
 fn banner() -> String {
@@ -173,16 +196,24 @@ pub fn judge(c: &SessionCase) -> Report {
     rep.nontrivial = c.has_fault && c.max_lines_after_fault >= 3;
     // in-process reference: the same forms one after another on one interpreter
     let texts = one_line.clone();
-    let reference: Vec<Result<Option<String>, String>> = sut::in_thread(move || {
+    let mut reference: Vec<Result<Option<String>, String>> = sut::in_thread(move || {
         let mut s = Session::stdlib().unwrap();
         texts.iter().map(|t| s.eval_display(t)).collect()
     });
+    for (i, v) in &c.known_values {
+        reference[*i] = Ok(Some(v.clone()));
+    }
     // submissions: a form joined with its successor (both succeeding) is one submission, which prints the value of
     // its last form only
     let mut joined = vec![false; c.forms.len()];
     {
         let mut i = 0;
         while i + 1 < c.forms.len() {
+            if c.force_join.contains(&i) && reference[i].is_ok() {
+                joined[i] = true;
+                i += 2;
+                continue;
+            }
             if c.join_next[i] && reference[i].is_ok() && reference[i + 1].is_ok() && !matches!(c.forms[i], Form::Raw(_)) && !matches!(c.forms[i + 1], Form::Raw(_)) {
                 joined[i] = true;
                 i += 2;
